@@ -29,6 +29,7 @@ META = {
                      "enumerate(..., start=1) counts iterations"],
     "assumptions": ["original mode: the explained feature names cover every feature the model reads"],
 }
+META["explanation"] += ' Also COPY (copy / pickle hooks of IntervalStorage keep its state) and DEP-C14 WIRING.'
 MIN_INSTANCES = {"BASE": 2, "TELESCOPE": 4, "AVERAGE": 2, "SCHEDULE": 5, "WINDOW": 2}
 
 
